@@ -746,7 +746,7 @@ func (b *Builder) allowLeader(peer *metapb.Peer, ignoreClusterLimit bool) bool {
 // 2. add voter + remove voter.
 // 3. add learner + remove learner.
 // 4. add learner + promote learner + remove voter.
-// 5. add voter + demote voter + remove learner.
+// 5. add voter + demote voter [+ remove learner].
 // 6. promote learner.
 // 7. demote voter.
 // 8. remove voter/learner.
@@ -839,6 +839,16 @@ func (b *Builder) planReplace() stepPlan {
 						best = b.planReplaceLeaders(best, stepPlan{demote: demote, add: add, remove: remove})
 					}
 				}
+			}
+		}
+	}
+	// add voter + demote voter
+	// Otherwise the voter is demoted before the new voter is added and the voter count drops in between.
+	for _, i := range b.toDemote.IDs() {
+		demote := b.toDemote[i]
+		for _, j := range b.toAdd.IDs() {
+			if add := b.toAdd[j]; !core.IsLearner(add) {
+				best = b.planReplaceLeaders(best, stepPlan{demote: demote, add: add})
 			}
 		}
 	}
